@@ -810,10 +810,12 @@ impl InflightBlocks {
                             }
                         }
                     }
-                    if !trace.is_empty() {
-                        trace.remove(&block);
-                    }
                 };
+                // the block is no longer in flight, whoever sent it: forget its slow mark even when
+                // the peer it was requested from has already been evicted by `prune`
+                if !trace.is_empty() {
+                    trace.remove(&block);
+                }
             })
             .is_some()
     }
